@@ -236,6 +236,17 @@ def gen_cases(tier, seed):
                     cfg['max_request_concurrency'] = rng.choice([3, 4])
                 cases.append({'seed': rng.randrange(1 << 30), 'config': cfg, 'transfers': [{'kind': 'download', 'dst': dst, 'size': size}],
                               'yield': {'p': 0.0, 'window': w}, 'plan': {'delay_p': rng.choice([0.0, 0.3]) if size < 100 else 0.0}, 'family': 'rmw-window'})
+    # downloads of an OLDER version (VersionId among the extra arguments) while the key's current version is other data
+    for i in range(24 if quick else 240):
+        C = 8
+        T = rng.choice([8, 16, 100])
+        cases.append({'seed': rng.randrange(1 << 30), 'family': 'versioned',
+                      'transfers': [{'kind': 'download', 'dst': rng.choice(['path', 'seekable', 'nonseekable', 'fifo']), 'size': rng.choice([1, 7, 16, 19, 33, 41]),
+                                     'versioned': True}],
+                      'config': dict(multipart_threshold=T, multipart_chunksize=C, io_chunksize=rng.choice([2, 4]), max_request_concurrency=rng.choice([1, 2, 3]),
+                                     num_download_attempts=2),
+                      'plan': ({'faults': [{'at': f't0/s3:GetObject:{rng.choice(["all", 0, 8])}#0', 'phase': 'body', 'bytes': rng.randrange(0, 5), 'kind': 'connreset',
+                                            'tag': 'FAULT-v'}]} if rng.random() < 0.4 else {})})
     # executor / subscriber flavours: everything inline in the submitting thread (NonThreadedExecutor, what use_threads=False
     # selects), no subscribers at all, and duck-typed subscribers offering only some callbacks
     for s in cases:
